@@ -80,6 +80,8 @@ def main():
                     break
     finally:
         sh(["git", "-C", REPO, "checkout", "--", "."])
+        # restore evidence: the evidence files must come from runs against the unchanged tree
+        sh(["git", "-C", str(ROOT), "checkout", "--", "evidence"])
     ver["checks_on_restored"] = {}
     for c in checks:
         rc, out = sh([str(ROOT / "check"), c], cwd=ROOT)
